@@ -237,11 +237,13 @@ payload_plausible(RPFrame *f)
     switch (f->header.type) {
     case RP_FRAME_READ_REQUEST:
         /* FALLTHROUGH */
-    case RP_FRAME_WRITE_RESPONSE:
-        /* FALLTHROUGH */
     case RP_FRAME_META:
         return (actualsize == 0) ? 0 : -EFAULT;
     case RP_FRAME_READ_RESPONSE:
+        /* FALLTHROUGH */
+    case RP_FRAME_WRITE_RESPONSE:
+        /* Write responses carry payload as well, when they signal an error
+         * that reports an address or a size. */
         /* FALLTHROUGH */
     case RP_FRAME_WRITE_REQUEST:
         return (f->header.blocksize == actualsize) ? 0 : -EFAULT;
